@@ -1,18 +1,24 @@
 #!/bin/bash
 # usage: tools/keepseed.sh <prop> <worktree> <name> "<needs>"  -- confirm the demo (fails with the change, passes without) and archive it
+# (outputs go through files, never pipes: orphaned loky workers keep a pipe open and would hang the reader)
 prop=$1; wt=$2; name=$3; needs=$4
 d=/verif/seeded/$name; mkdir -p $d
 cp $wt/patch.diff $d/patch.diff; cp $wt/demo.py $d/demo.py
 cd $wt
-with=$(PYTHONPATH=$wt timeout 600 /venv/bin/python demo.py 2>&1 | tail -3; echo "exit=${PIPESTATUS[0]}")
+git checkout -q -- loky; git apply patch.diff
+PYTHONPATH=$wt timeout -k 2 300 /venv/bin/python demo.py > /tmp/keepseed.with 2>&1 < /dev/null; echo "exit=$?" >> /tmp/keepseed.with
 git apply -R patch.diff
-without=$(PYTHONPATH=$wt timeout 600 /venv/bin/python demo.py 2>&1 | tail -3; echo "exit=${PIPESTATUS[0]}")
+PYTHONPATH=$wt timeout -k 2 300 /venv/bin/python demo.py > /tmp/keepseed.without 2>&1 < /dev/null; echo "exit=$?" >> /tmp/keepseed.without
 git apply patch.diff
-python3 - "$prop" "$name" "$needs" "$with" "$without" <<'PY'
+python3 - "$prop" "$name" "$needs" <<'PY'
 import json,sys
-prop,name,needs,w,wo=sys.argv[1:6]
+prop,name,needs=sys.argv[1:4]
+def tail(p):
+    return "\n".join(l for l in open(p, errors="replace").read().splitlines() if "leaked semlock" not in l and "warnings.warn" not in l)[-600:]
+w,wo=tail("/tmp/keepseed.with"),tail("/tmp/keepseed.without")
 json.dump({"property":prop,"name":name,"needs_to_manifest":needs,"demo_with_change":w,"demo_without_change":wo,
            "how_confirmed":"demo.py run in the sub-agent's scratch worktree with the change applied and with it reverted (git apply -R) (tools/keepseed.sh)"},
           open(f"/verif/seeded/{name}/meta.json","w"),indent=1)
 print("WITH:",w[-200:]); print("WITHOUT:",wo[-200:])
 PY
+rm -f /tmp/keepseed.with /tmp/keepseed.without
